@@ -1033,7 +1033,7 @@ pub fn run(ctx: &Ctx, prop: &str) -> Shard {
         let n_rand = ctx.scale(if ctx.thorough() { 1500 } else { 80 });
         for k in 0..n_rand {
             let strat = if k % 2 == 0 {
-                Strategy::Pct { seed: rng.next(), depth: 1 + (k as usize / 2) % 4, expected_steps: 60 }
+                Strategy::Pct { seed: rng.next(), depth: 1 + (k as usize / 2) % 4, expected_steps: if k % 2 == 0 { 60 } else { 130 } }
             } else {
                 Strategy::Random { seed: rng.next() }
             };
